@@ -31,7 +31,8 @@ CV = ('Each case is one real callVariant execution (in-process, working tree) on
       'independent definitional model (harness/model/oracle.py) enumerating every haplotype. ')
 reg('C01', 'exploration', 'runtime monitor: reference-model oracle (MUST subset of output) + metamorphic pair (collapse knobs) over generated inputs',
     CV + 'Completeness: the conservative MUST set must be contained in the FASTA; the same case under two collapse-knob settings must give the '
-    'same sequences. Held = on the executions of this run; known findings are attributed by mechanism predicates over the witness haplotypes.',
+    'same sequences. Held = on the executions of this run; known findings are attributed by mechanism predicates over the witness haplotypes and bounded by per-class rate ceilings '
+    '(a rate jump is reported as known-finding-drift).',
     TB + 'The MAY-MUST gap (clauses the statement leaves open) is listed in the evidence rule text and is not decided.', 'DESIGN.md section 6 C01')
 reg('C02', 'exploration', 'runtime monitor: reference-model oracle (output subset of MAY) + metamorphic relations under binding limits and injected timeouts',
     CV + 'Soundness: every output sequence must be a liberal digestion product of some haplotype; on dense clusters outputs under binding limits and '
@@ -42,7 +43,7 @@ reg('C03', 'exploration', 'runtime monitor: witness oracle over every (peptide, 
     'must produce the peptide; entry strings must be unique. Deviations are clustered by minimal repair and only the recorded mechanisms are tolerated.',
     TB + 'Labels are not reproducible run to run (address-hashed sets), so known label findings are keyed by predicate, not by instance.', 'DESIGN.md section 6 C03')
 reg('C04', 'exploration', 'runtime monitor: invariant checks on outputs (canonical pool from own digest, limits, uniqueness, table/FASTA agreement)',
-    CV + 'Hygiene invariants are evaluated on every output of callVariant (and of callNovelORF / callAltTranslation once their monitors are built).',
+    CV + 'Hygiene invariants are evaluated on every output of callVariant and on callNovelORF / callAltTranslation runs on generated references.',
     TB, 'DESIGN.md section 6 C04')
 
 reg('C13', 'exploration', 'runtime monitor: round-trip fixed-point oracle and pointer-vs-linear-scan model over generated GVF files; fault = edit after indexing',
@@ -55,10 +56,11 @@ reg('C20', 'exploration', 'runtime monitor: invariant oracle (permutation, fixed
 
 reg('C18', 'exploration', 'runtime monitor: conservation oracle (partition / union / invertibility / totals) + own model of the source-set priority over real callVariant outputs',
     'splitFasta, mergeFasta, encodeFasta, decoyFasta+encodeFasta and summarizeFasta are executed on FASTAs produced by real callVariant runs with one GVF per '
-    'source; conservation laws and the database assignment (own implementation of the documented ordering) are checked per peptide; summarize is tied to split.',
+    'source, optionally together with real callNovelORF / callAltTranslation FASTAs sharing sequences with it; conservation laws and the database assignment (own implementation of '
+    'the documented ordering) are checked per peptide over the union of entries; summarize is tied to split.',
     TB + 'Wildcard source orders (+,*) are not generated; entries are compared modulo the order of their fields.', 'DESIGN.md section 6 C18')
-reg('C19', 'exploration', 'runtime monitor: per-entry predicate oracle + metamorphic relations (idempotence, monotonicity) over real callVariant outputs',
-    'filterFasta is executed on real FASTAs with generated expression tables (values around the cutoff), denylists and flag combinations, with the reference '
+reg('C19', 'exploration', 'runtime monitor: per-entry predicate oracle + metamorphic relations (idempotence, monotonicity) over real callVariant outputs and generated FASTAs of every label kind',
+    'filterFasta is executed on real FASTAs and on generated multi-entry FASTAs (base / novel ORF / fusion over coding x non-coding pairs / circRNA labels) with generated expression tables (values around the cutoff), denylists and flag combinations, with the reference '
     'as index directory or raw GTF; the kept entries must equal an own evaluation of the documented rule; a second pass must change nothing; stricter settings '
     'must keep a subset.', TB, 'DESIGN.md section 6 C19')
 
@@ -75,7 +77,10 @@ reg('C06', 'exploration', 'runtime monitor: metamorphic equality over paired exe
 reg('C07', 'fault_enumeration', 'runtime monitor with source-free failpoints: every single fault and pairs over the processing units, in-process and in ppft workers',
     'Failpoints raise inside call_peptide_main / _fusion / _circ_rna for a chosen set of units; recording wrappers capture what every unit returns. With '
     '--skip-failed: completion, tally, untouched surviving units, no loss of their peptides, absence of the failed units\' exclusive peptides; without it: '
-    'abort and no FASTA. All single faults (and pairs, triples in thorough) of each generated case are enumerated.', TB + 'Faults are injected exceptions at the entry of the per-unit callers; natural data faults are not generated.',
+    'abort and no FASTA. All single faults (and pairs, triples in thorough) of each generated case are enumerated. CLI runs with --threads 1/2/3 and 1-2 failpoints outside '
+    'the last transcript also check the printed tally. Natural data faults (a record that invalidates the whole variant series of one transcript) are generated as well: the run must '
+    'complete, tally one invalid transcript, never call its units and leave units not involving it unchanged.', TB + 'Injected faults are exceptions at the entry of the per-unit callers; '
+    'a natural fault the tool tolerates (run without --skip-failed completes) is not judged.',
     'DESIGN.md section 6 C07')
 reg('C08', 'exploration', 'runtime monitor: two-sided reference-model oracle (own transcript selection + ATG-ORF digest) and ORF-FASTA invariants over generated references',
     'callNovelORF is executed in-process on generated references over the option grid; output must contain MUST and be contained in MAY of an own '
@@ -92,7 +97,8 @@ reg('C11', 'exploration', 'runtime monitor: reference-model oracle evaluated on 
     'GtfIO.write -> parse must preserve the models.', TB, 'DESIGN.md section 6 C11')
 reg('C12', 'exploration', 'runtime monitor: sequential history monitor against a dictionary model (params -> definitional pool), with refusal, isolation and tamper checks',
     'Histories of generateIndex / updateIndex (+/- --force) / load over five parameter sets are executed in-process on a generated reference; after every '
-    'operation the directory and the loaded data are compared with a dictionary model whose pools come from the definitional digest.', TB,
+    'operation the directory and the loaded data are compared with a dictionary model whose pools come from the definitional digest. A quarter of the histories contain '
+    'a version-mismatch event (metadata as written by another python / biopython / moPepGen): load and update must then be rejected, a forced rebuild must load again.', TB,
     'DESIGN.md section 6 C12')
 
 PARSER = 'The parser command is executed on generated tool output derived from a generated reference whose object model is the oracle. '
@@ -105,7 +111,8 @@ reg('C15', 'exploration', 'runtime monitor: reference-model oracle (record set, 
     TB, 'DESIGN.md section 6 C15')
 reg('C16', 'exploration', 'runtime monitor: reference-model oracle (record applied to transcript == alternative exon list) over rMATS events constructed from transcripts',
     PARSER + 'Events of all five rMATS types are built from a transcript and an explicit alternative exon list (both directions, both strands); every constrained record '
-    'must reproduce the alternative sequence; rows below the thresholds and fully annotated events must emit nothing.', TB + 'Completeness of emission is not claimed by the '
+    'must reproduce the alternative sequence; rows below the thresholds and fully annotated events must emit nothing; in a second run per case an added isoform that carries every '
+    'junction of an emitted event\'s alternative form (other outer ends) must silence that event\'s records.', TB + 'Completeness of emission is not claimed by the '
     'property and is only counted (alternatives_not_emitted).', 'DESIGN.md section 6 C16')
 reg('C17', 'exploration', 'runtime monitor: reference-model oracle (fragments, circular sequence, id, skip rules) over generated CIRCexplorer2/3 tables, partly through the real CLI',
     PARSER + 'Exon circles, ciRNAs with boundary jitter around the tolerance, unknown exons and evidence values around the thresholds; fragments, sequence and id are '
